@@ -68,7 +68,7 @@ func judgeDangling(c *Ctx, conf *cfg.Config, run *cli.Run, files map[string]stri
 		sec := run.Rep.Section(section)
 		if sec == nil {
 			if run.Rep.Section("Validate output") != nil {
-				c.Violate("section-missing:"+kind, "report lacks step "+section+"\n"+run.Res.Stdout, files)
+				c.Inconclusive("the report lacks the step " + section + ": its diagnostics cannot be attributed")
 			}
 			return
 		}
@@ -98,7 +98,7 @@ func judgeDangling(c *Ctx, conf *cfg.Config, run *cli.Run, files map[string]stri
 	if run.Rep.Section("Validate output") == nil {
 		// rejected earlier (Compile): nothing to compare, unless the generator meant the config to reach validation
 		if !otherDefects {
-			c.Violate("rejected-before-validation:"+sigWords(strings.Join(run.Rep.List, " ")), "configuration did not reach output validation:\n"+run.Res.Stdout, files)
+			c.Side("C11", "rejected-before-validation:"+sigWords(strings.Join(run.Rep.List, " ")), "configuration did not reach output validation:\n"+run.Res.Stdout, files)
 		}
 		return
 	}
@@ -252,7 +252,7 @@ func checkC06(c *Ctx) error {
 		run := cli.Do(w, "", nil, dir, out, "build", "-i", "in.yaml", "-o", out)
 		files := map[string]string{"input/in.yaml": yaml, "stdout.txt": run.Res.Stdout}
 		for _, b := range run.Contract() {
-			c.Violate("cli-contract:"+sigWords(b), b, files)
+			c.Side("C10,C12", "cli-contract:"+sigWords(b), b, files)
 		}
 		d := ref.Dangling(conf)
 		c.Eval(yaml, len(d) > 0 || len(ref.References(conf)) > 2)
